@@ -79,11 +79,11 @@ let () =
         | Some ic ->
             let il = input_line ic in
             let r =
-              if String.length il > 0 && il.[0] = '!' then false   (* impl-side abnormal outcome marker *)
-              else (try ok_by_id id c (parse_sx il) with Failure _ -> false) in
-            Buffer.add_char b (if r then '1' else '0'));
+              if String.length il > 0 && il.[0] = '!' then BZ.zero   (* impl-side abnormal outcome marker *)
+              else (try z_of_coqz (ok_by_id id c (parse_sx il)) with Failure _ -> BZ.zero) in
+            Buffer.add_string b (BZ.to_string r));
        Buffer.add_char b '\t';
-       Buffer.add_char b (if ok_by_id id c m then '1' else '0');
+       Buffer.add_string b (BZ.to_string (z_of_coqz (ok_by_id id c m)));
        Buffer.add_char b '\n';
        print_string (Buffer.contents b)
      done
